@@ -195,10 +195,7 @@ func vH_C06_stream_replay() {
 	server := &StreamUnderlay{baseUnderlay: *newBaseUnderlay(false, 1400, nil), conn: conn, sessionCleanTicker: time.NewTicker(sessionCleanInterval)}
 	vDiscoveryOK = vNondetBool("discovery.ok")
 	vDupSeen, vDupAnswer = false, false
-	vDupFirstOnly = true
-	err := server.RunEventLoop(context.Background())
-	vDupFirstOnly = false
-	vAssume(vDupFirst) // the first read IS reported as a replay
+	err := server.RunEventLoop(context.Background()) // vStubIsDuplicateFirst: the first read IS reported as a replay
 	vAssert(err != nil, "the event loop ends")
 	vAssert(stderror.GetErrorType(err) == stderror.REPLAY_ERROR, "a replayed first segment ends the connection with a replay error, whether or not it decrypts")
 	vAssert(conn.writes == 0 && len(conn.out) == 0, "not a single byte is sent in reply to a replay")
@@ -207,4 +204,13 @@ func vH_C06_stream_replay() {
 	vAssert(conn.closed, "the connection is closed")
 }
 
-var vDupFirstOnly, vDupFirst bool
+var vDupFirst bool
+
+// the first query is reported as a replay, later ones arbitrarily
+func vStubIsDuplicateFirst(c *replay.ReplayCache, data []byte, tag string) bool {
+	if !vDupSeen {
+		vDupSeen = true
+		return true
+	}
+	return vNondetBool("replay.dup")
+}
